@@ -22,7 +22,7 @@ import ast
 
 from ..astx import atoms, call_name, dotted, enclosing_stmt, expand, facts_at, kwarg, last, reaching_def
 from ..cfg import CFG
-from ..index import AnchorError, FuncNode, enclosing_class, enclosing_function, parent, qualname_of, walk_shallow
+from ..index import AnchorError, FuncNode, enclosing_function, qualname_of, walk_shallow
 from ..selftest import Twin
 from .c26 import (  # shared helpers live in c26.py (the brief forbids new shared files under sa/)
     DBI,
